@@ -6,4 +6,4 @@ require github.com/vektah/gqlparser/v2 v2.5.0
 
 require github.com/agnivade/levenshtein v1.2.1 // indirect
 
-replace github.com/vektah/gqlparser/v2 => /repo
+replace github.com/vektah/gqlparser/v2 => /var/tmp/repo-snap
